@@ -127,6 +127,10 @@ pub fn check_outputs(c: &Compiled, src_out_t: &Type, outs: &[IOStatus], r: &Exec
 }
 
 pub fn run_program(p: &Prog, owners: &[IOStatus], outs: &[IOStatus], mname: &str, mode: InlineConfig, rng: &mut Rng, out: &mut Out, class_prefix: &str, n_exec: usize, truncating: bool) {
+    let its = p.input_types.clone();
+    run_program_with(p, owners, outs, mname, mode, rng, out, class_prefix, n_exec, truncating, &move |r: &mut Rng| its.iter().map(|t| gen_value(t, r)).collect())
+}
+pub fn run_program_with(p: &Prog, owners: &[IOStatus], outs: &[IOStatus], mname: &str, mode: InlineConfig, rng: &mut Rng, out: &mut Out, class_prefix: &str, n_exec: usize, truncating: bool, gen_inputs: &dyn Fn(&mut Rng) -> Vec<Value>) {
     let ops_desc: Vec<String> = p.g.get_nodes().iter().map(|n| op_name(&n.get_operation())).collect();
     let desc = json!({"ops": ops_desc, "input_types": p.input_types.iter().map(|t| format!("{}", t)).collect::<Vec<_>>(), "owners": owners.iter().map(status_str).collect::<Vec<_>>(), "outputs": outs.iter().map(status_str).collect::<Vec<_>>(), "inline": mname});
     let c = match compile(p, owners, outs, mode) { Outcome::Ok(c) => c, Outcome::Err => { out.stat("compile:Err"); return; } Outcome::Panic => { out.stat("compile:Panic"); out.violation("compiler-panics", desc, "compile_context panicked".into()); return; } };
@@ -143,7 +147,7 @@ pub fn run_program(p: &Prog, owners: &[IOStatus], outs: &[IOStatus], mname: &str
     // oracle: three-party executions with junk and independent seeds
     let src_out_t = p.g.get_output_node().unwrap().get_type().unwrap();
     for _ in 0..n_exec {
-        let plain: Vec<Value> = p.input_types.iter().map(|t| gen_value(t, rng)).collect();
+        let plain: Vec<Value> = gen_inputs(rng);
         let pv = eval_all(&p.g, &plain, [3u8; 16]);
         let plain_out = match pv.last().and_then(|_| pv[p.g.get_output_node().unwrap().get_id() as usize].clone().ok()) { Some(v) => v, None => { out.stat("plain:Err"); continue; } };
         let ins = party_inputs(&p.input_types, owners, &plain, rng);
@@ -155,11 +159,79 @@ pub fn run_program(p: &Prog, owners: &[IOStatus], outs: &[IOStatus], mname: &str
     }
 }
 
+/// {null: bit[n], k: u32[n], <pay>: u32[n]} with distinct keys drawn from a small pool
+fn table_type(n: u64, pay: &str) -> Type {
+    named_tuple_type(vec![(ciphercore_base::type_inference::NULL_HEADER.to_owned(), array_type(vec![n], BIT)), ("k".to_owned(), array_type(vec![n], UINT32)), (pay.to_owned(), array_type(vec![n], UINT32))])
+}
+fn table_value(n: u64, rng: &mut Rng, pool_offset: u64) -> Value {
+    let mut keys: Vec<u64> = (0..8).map(|i| 10 * (i + 1 + pool_offset)).collect();
+    rng.shuffle(&mut keys);
+    let nulls: Vec<u8> = (0..n).map(|_| if rng.chance(4, 5) { 1 } else { 0 }).collect();
+    let ks: Vec<u64> = keys[..n as usize].to_vec();
+    let pay: Vec<u64> = (0..n).map(|_| 1 + rng.below(1000)).collect();
+    Value::from_vector(vec![Value::from_flattened_array(&nulls, BIT).unwrap(), Value::from_flattened_array(&ks, UINT32).unwrap(), Value::from_flattened_array(&pay, UINT32).unwrap()])
+}
+pub fn join_program(jt: JoinType, n0: u64, n1: u64) -> Prog {
+    let ctx = create_context().unwrap();
+    let g = ctx.create_graph().unwrap();
+    let (t0, t1) = (table_type(n0, "a"), table_type(n1, "b"));
+    let i0 = g.input(t0.clone()).unwrap();
+    let i1 = g.input(t1.clone()).unwrap();
+    let mut h = std::collections::HashMap::new();
+    h.insert("k".to_owned(), "k".to_owned());
+    let o = g.add_node(vec![i0, i1], vec![], Operation::Join(jt, h)).unwrap();
+    g.set_output_node(o).unwrap();
+    g.finalize().unwrap();
+    ctx.set_main_graph(g.clone()).unwrap();
+    ctx.finalize().unwrap();
+    Prog { ctx, g, input_types: vec![t0, t1], attempts: vec![] }
+}
+pub fn sort_program(n: u64, b: u64) -> Prog {
+    let ctx = create_context().unwrap();
+    let g = ctx.create_graph().unwrap();
+    let t = named_tuple_type(vec![("key".to_owned(), array_type(vec![n, b], BIT)), ("pay".to_owned(), array_type(vec![n], UINT32))]);
+    let i = g.input(t.clone()).unwrap();
+    let o = g.add_node(vec![i], vec![], Operation::Sort("key".to_owned())).unwrap();
+    g.set_output_node(o).unwrap();
+    g.finalize().unwrap();
+    ctx.set_main_graph(g.clone()).unwrap();
+    ctx.finalize().unwrap();
+    Prog { ctx, g, input_types: vec![t], attempts: vec![] }
+}
+
+pub fn run_special(tier: &str, rng: &mut Rng, out: &mut Out) {
+    let modes = inline_modes();
+    let n_join = match tier { "thorough" => 16, "search" => 24, _ => 2 };
+    let jts = [JoinType::Union, JoinType::Inner, JoinType::Left, JoinType::Full];
+    for i in 0..n_join {
+        let jt = jts[i % 4];
+        let (n0, n1) = (2 + rng.below(2), 1 + rng.below(2));
+        let p = join_program(jt, n0, n1);
+        let owners = match i % 3 { 0 => vec![IOStatus::Party(0), IOStatus::Party(1)], 1 => vec![IOStatus::Party(1), IOStatus::Public], _ => vec![IOStatus::Shared, IOStatus::Party(2)] };
+        let owners = if owners.contains(&IOStatus::Shared) { vec![IOStatus::Party(2), IOStatus::Party(0)] } else { owners };
+        let outs = vec![IOStatus::Party(((i + 2) % 3) as u64)];
+        let (mname, mode) = modes[0].clone();
+        out.stat(&format!("special:join-{:?}", jt));
+        run_program_with(&p, &owners, &outs, mname, mode, rng, out, &format!("exec3-join-{:?}", jt), 1, false, &move |r: &mut Rng| vec![table_value(n0, r, 0), table_value(n1, r, 1)]);
+    }
+    let n_sort = match tier { "thorough" => 8, "search" => 12, _ => 1 };
+    for i in 0..n_sort {
+        let (n, b) = (2 + rng.below(3), 1 + rng.below(3));
+        let p = sort_program(n, b);
+        let owners = vec![match i % 3 { 0 => IOStatus::Party(1), 1 => IOStatus::Party(0), _ => IOStatus::Party(2) }];
+        let outs = vec![IOStatus::Party((i % 3) as u64)];
+        let (mname, mode) = modes[i % 3].clone();
+        out.stat("special:sort");
+        run_program(&p, &owners, &outs, mname, mode, rng, out, "exec3-sort", 1, false);
+    }
+}
+
 pub fn run(tier: &str, seed: u64, out: &mut Out) {
     let mut rng = Rng::new(seed ^ 0xC02);
     let (n_frag, n_wide) = match tier { "thorough" => (300, 300), "search" => (400, 600), _ => (24, 30) };
     let modes = inline_modes();
     let all_outs = output_subsets();
+    run_special(tier, &mut rng, out);
     let int_sts = [UINT8, INT16, UINT32, INT32, UINT64, INT64];
     for i in 0..(n_frag + n_wide) {
         let wide = i >= n_frag;
